@@ -1,6 +1,7 @@
 package run
 
 import (
+	"encoding/binary"
 	"errors"
 	"fmt"
 	"io"
@@ -28,6 +29,13 @@ type MuxStream struct {
 	Reopen int `json:"reopen,omitempty"`
 }
 
+type MuxShared struct {
+	ID  int   `json:"id"`
+	Dir int   `json:"dir"`
+	A   []int `json:"a"` // payload sizes of the first writer (each >= 8)
+	B   []int `json:"b"`
+}
+
 type MuxFault struct {
 	Kind  string `json:"kind"`  // cut | kill | close-mux | close-conn | overflow
 	End   int    `json:"end"`   // close-*: which end; cut: direction (0 = A->B)
@@ -47,6 +55,9 @@ type MuxW struct {
 	// Orphans: streams written on a connection id that is open only at the writing end; the
 	// receiving mux drops those frames (documented), which must not disturb any other stream.
 	Orphans []MuxStream `json:"orphans,omitempty"`
+	// Shared: connection ids written by TWO concurrent writer tasks at the same end (payloads carry a
+	// record header); the stream read must be a serialisation of whole payloads, each writer's in order.
+	Shared []MuxShared `json:"shared,omitempty"`
 	// Blocked: end B's mux is created with WithBlockedRead and unblocked at a scheduler-chosen moment;
 	// everything written before must still arrive.
 	Blocked bool `json:"blocked,omitempty"`
@@ -115,6 +126,26 @@ func muxGen(focus string) func(rng *rand.Rand, conf string, idx int) any {
 				}
 				w.Orphans = append(w.Orphans, st)
 			}
+		}
+		if focus == "C10" && w.Qlen >= 4 && rng.Intn(3) == 0 {
+			sh := MuxShared{ID: 30, Dir: rng.Intn(2)}
+			sz := func() int {
+				x := 8 + rng.Intn(400)
+				if rng.Intn(4) == 0 {
+					x = pick(rng, []int{4096, 65536})
+				}
+				if big && rng.Intn(2) == 0 {
+					x = pick(rng, []int{muxMaxPayload + 1, 2*muxMaxPayload + 20})
+				}
+				return x
+			}
+			for k, n := 0, 1+rng.Intn(4); k < n; k++ {
+				sh.A = append(sh.A, sz())
+			}
+			for k, n := 0, 1+rng.Intn(4); k < n; k++ {
+				sh.B = append(sh.B, sz())
+			}
+			w.Shared = append(w.Shared, sh)
 		}
 		if conf == "grid" {
 			// enumerated: fixed traffic, cut at every byte offset of the A->B or B->A transcript
@@ -374,6 +405,76 @@ func muxRun(t *testing.T, wl any, sc SchedCfg) *Result {
 				}
 			})
 		}
+		// shared streams: two writers on one connection
+		type sharedState struct {
+			got           []byte
+			rerr          error
+			rdone         bool
+			frames, reads int
+			werr          [2]error
+		}
+		var shared []*sharedState
+		for si, sh := range w.Shared {
+			sh := sh
+			ss := &sharedState{}
+			shared = append(shared, ss)
+			wc, err1 := muxes[sh.Dir].Open(multiplex.ConnID(sh.ID))
+			rc, err2 := muxes[1-sh.Dir].Open(multiplex.ConnID(sh.ID))
+			if err1 != nil || err2 != nil {
+				res.Violate(w.Focus+".setup", "open shared %d: %v %v", sh.ID, err1, err2)
+				return
+			}
+			total, totalFr, maxsz := 0, 0, 16
+			for _, lst := range [][]int{sh.A, sh.B} {
+				for _, sz := range lst {
+					total += sz
+					totalFr += framesOf(sz)
+					if sz > maxsz {
+						maxsz = sz
+					}
+				}
+			}
+			if maxsz > muxMaxPayload {
+				maxsz = muxMaxPayload
+			}
+			e.S.Probe("C10.two-writers-on-one-connection")
+			for wi, lst := range [][]int{sh.A, sh.B} {
+				wi, lst := wi, lst
+				e.Task(fmt.Sprintf("shared-writer-%d-%d", si, wi), func() {
+					for seq, sz := range lst {
+						fr := framesOf(sz)
+						e.S.ParkOwned(fmt.Sprintf("wgate-shared:%d:%d", si, wi), fmt.Sprintf("shared-writer-%d-%d", si, wi), func() bool {
+							return ss.frames-ss.reads+fr <= w.Qlen || ss.rdone
+						})
+						ss.frames += fr // reserve before writing: both writers share the queue
+						p := make([]byte, sz)
+						p[0], p[1] = byte(wi+1), byte(seq)
+						binary.BigEndian.PutUint32(p[2:6], uint32(sz))
+						for i := 6; i < sz; i++ {
+							p[i] = byte((i*31)^(wi*101)^(seq*57)) | 1
+						}
+						if _, err := wc.Write(p); err != nil {
+							ss.werr[wi] = err
+							return
+						}
+					}
+				})
+			}
+			e.Task(fmt.Sprintf("shared-reader-%d", si), func() {
+				buf := make([]byte, maxsz)
+				for ss.reads < totalFr {
+					n, err := rc.Read(buf)
+					if err != nil {
+						ss.rerr = err
+						break
+					}
+					ss.reads++
+					ss.got = append(ss.got, buf[:n]...)
+				}
+				ss.rdone = true
+			})
+			_ = total
+		}
 		// faults
 		for i, f := range w.Faults {
 			i, f := i, f
@@ -537,6 +638,47 @@ func muxRun(t *testing.T, wl any, sc SchedCfg) *Result {
 			}
 			if len(sd.got) != want || sd.rerr != nil || sd.werr != nil {
 				complete = false
+			}
+		}
+		for si, sh := range w.Shared {
+			ss := shared[si]
+			if failed || len(w.Faults) > 0 {
+				continue
+			}
+			if ss.rerr != nil || ss.werr[0] != nil || ss.werr[1] != nil || !ss.rdone {
+				res.Violate("C10.complete", "shared connection %d: reader done=%v err=%v, writer errors %v %v without any failure injected", sh.ID, ss.rdone, ss.rerr, ss.werr[0], ss.werr[1])
+				continue
+			}
+			// the stream must parse as whole payloads, each writer's in its own order
+			next := [2]int{}
+			lists := [2][]int{sh.A, sh.B}
+			pos := 0
+			for pos < len(ss.got) {
+				if pos+6 > len(ss.got) {
+					res.Violate("C10.stream-content", "shared connection %d: %d trailing bytes do not form a payload header", sh.ID, len(ss.got)-pos)
+					break
+				}
+				wi, seq, ln := int(ss.got[pos])-1, int(ss.got[pos+1]), int(binary.BigEndian.Uint32(ss.got[pos+2:pos+6]))
+				if wi < 0 || wi > 1 || seq != next[wi] || seq >= len(lists[wi]) || ln != lists[wi][seq] || pos+ln > len(ss.got) {
+					res.Violate("C10.stream-content", "shared connection %d (two concurrent writers): at byte %d of the stream read there is no whole payload of either writer in its order (header says writer %d, payload #%d, %d bytes; expected next payloads #%d and #%d): payloads of the two writers are interleaved or damaged", sh.ID, pos, wi+1, seq, ln, next[0], next[1])
+					break
+				}
+				okBody := true
+				for i := 6; i < ln; i++ {
+					if ss.got[pos+i] != byte((i*31)^(wi*101)^(seq*57))|1 {
+						okBody = false
+						res.Violate("C10.stream-content", "shared connection %d: payload #%d of writer %d is damaged at its byte %d", sh.ID, seq, wi+1, i)
+						break
+					}
+				}
+				if !okBody {
+					break
+				}
+				next[wi]++
+				pos += ln
+			}
+			if len(res.Violations) == 0 && (next[0] != len(sh.A) || next[1] != len(sh.B)) {
+				res.Violate("C10.complete", "shared connection %d: %d+%d payloads read, %d+%d written", sh.ID, next[0], next[1], len(sh.A), len(sh.B))
 			}
 		}
 		closeConn := false
@@ -714,6 +856,11 @@ func muxShrink(wl any) []any {
 	for i := range w.Orphans {
 		c := jsonClone(w)
 		c.Orphans = append(c.Orphans[:i], c.Orphans[i+1:]...)
+		out = append(out, c)
+	}
+	if len(w.Shared) > 0 {
+		c := jsonClone(w)
+		c.Shared = nil
 		out = append(out, c)
 	}
 	for i := range w.Streams {
